@@ -54,8 +54,12 @@ pub fn ulp(x: f64) -> f64 {
     let a = x.abs();
     next_up(a) - a
 }
+/// bitwise equality of two floats, any NaN equal to any NaN (sign/payload of a NaN carry no meaning)
+pub fn same_bits(x: f64, y: f64) -> bool {
+    x.to_bits() == y.to_bits() || (x.is_nan() && y.is_nan())
+}
 pub fn bits_eq(a: &[f64], b: &[f64]) -> bool {
-    a.len() == b.len() && a.iter().zip(b).all(|(x, y)| x.to_bits() == y.to_bits())
+    a.len() == b.len() && a.iter().zip(b).all(|(x, y)| same_bits(*x, *y))
 }
 pub fn bits_eq2(a: &[Vec<f64>], b: &[Vec<f64>]) -> bool {
     a.len() == b.len() && a.iter().zip(b).all(|(x, y)| bits_eq(x, y))
